@@ -453,7 +453,7 @@ fn build(rng: &mut Rng, dir: &Path, ncommits: usize) -> Built {
     // the configuration is not part of the history
     let _ = std::fs::create_dir_all(dir.join(".git/info"));
     std::fs::write(dir.join(".git/info/exclude"), ".sloc-guard.toml\n").unwrap();
-    std::fs::write(dir.join(".sloc-guard.toml"), "version = \"2\"\n[content]\nmax_lines = 4\nwarn_threshold = 0.7\nextensions = [\"rs\"]\n[structure]\nmax_files = 2\nmax_dirs = 2\n").unwrap();
+    std::fs::write(dir.join(".sloc-guard.toml"), "version = \"2\"\n[content]\nmax_lines = 4\nwarn_threshold = 0.7\nextensions = [\"rs\"]\n[structure]\nmax_files = 2\nmax_dirs = 2\n[[structure.rules]]\nscope = \"**\"\nsiblings = [{ match = \"a.rs\", require = \"{stem}.md\" }, { group = [\"{stem}.rs\", \"{stem}.txt\"] }]\n").unwrap();
     let mut st = State::new();
     let mut states: Vec<State> = vec![];
     let mut commits: Vec<(String, Vec<String>)> = vec![];
